@@ -13,7 +13,7 @@ RULE = ('Hypothesis draws a domain (2-4 attrs, sizes 1-4), 0-5 measurements (inc
         'answer over all attribute subsets (drawn orders) and datavector must equal its marginals, be finite, >=0 and sum '
         'to model.total. Non-trivial = model with >=2 cliques and both in-clique and out-of-clique tuples queried; '
         'distinct by sha1.')
-BUDGET = {'quick': 2400, 'thorough': 48000}
+BUDGET = {'quick': 3200, 'thorough': 64000}
 TIME = {'quick': 110, 'thorough': 1500}
 
 
